@@ -1034,7 +1034,7 @@ func runC17(o *opts) error {
 			rounds = 3
 		}
 		for round := 0; round < rounds; round++ {
-			for _, mode := range []string{"plain", "batch", "snapshot", "rootbucket", "snapintx", "nested", "listeners", "metadata", "accessors"} {
+			for _, mode := range []string{"plain", "batch", "snapshot", "rootbucket", "snapintx", "nested", "listeners", "metadata", "accessors", "overlap"} {
 				cases.line("R %s %d", mode, ms)
 				impl.line("%s", c17RaceChild(mode, ms, o.seed+int64(round), o.out))
 				stats["race_"+mode]++
